@@ -65,6 +65,9 @@ class Ledger:
         return f"{o['rule']} :: {o['construct']}"
 
     def finish(self, project=None, files=None) -> int:
+        if os.environ.get("OPSA_VERBOSE"):
+            for o in self.obls:
+                print(f"  [{o['status']}] {o['rule']} {o['construct']} — {o.get('how') or o.get('why') or ''}")
         known = []
         if KNOWN.exists():
             known = [k for k in json.loads(KNOWN.read_text()) if k.get("property") == self.prop]
